@@ -51,6 +51,22 @@ def canon_file(f: Any) -> Any:
                   key=lambda x: x[0])
 
 
+def make_other_model(w: Any, tmp: str) -> str:
+    """the saved model of another workflow ("other job": P; Q|R; S), written by the real `pv2puml -om`"""
+    od = os.path.join(tmp, "other")
+    os.makedirs(os.path.join(od, "in"))
+    os.makedirs(os.path.join(od, "out"))
+    for n, types in enumerate([["P", "Q", "S"], ["P", "R", "S"]]):
+        with open(os.path.join(od, "in", f"job{n}.json"), "w") as f:
+            json.dump([{"jobId": f"o{n}", "eventId": f"o{n}-{i}", "eventType": t, "timestamp": "2024-01-01T00:00:00.000000Z",
+                        "applicationName": "app", "jobName": "other job",
+                        "previousEventIds": [f"o{n}-{i - 1}"] if i else []} for i, t in enumerate(types)], f)
+    w.send({"op": "cli", "argv": ["-o", os.path.join(od, "out"), "pv2puml", "-om", "-fp", os.path.join(od, "in"),
+                                  "-jn", "other job"], "timeout": 120})
+    w.recv()
+    return os.path.join(od, "out", "other_job_model.json")
+
+
 def cli_part(ctx: Ctx, cases: list[dict[str, Any]], quick: bool) -> None:
     """the same update through the real command line: `pv2puml -fp <chunk folder> -jn <name> -om` and then
     `-im <saved model>` for the next chunk, for job names with and without spaces; the model file of the last run must
@@ -63,6 +79,9 @@ def cli_part(ctx: Ctx, cases: list[dict[str, Any]], quick: bool) -> None:
     tmp = tempfile.mkdtemp(prefix="o2p04c_")
     w = pvlib.Worker(0)
     try:
+        # the saved model of ANOTHER workflow (other events): users hand several `-im` files to one run, the tool picks
+        # the one whose job name matches
+        other_model = make_other_model(w, tmp)
         for k, c in enumerate(picked):
             name = r.choice(["wf", "Order Flow", "a b c", "x-1", "wf one ", " lead", "Zo\u00eb 50%"])
             stem = name.replace(" ", "_")
@@ -71,7 +90,7 @@ def cli_part(ctx: Ctx, cases: list[dict[str, Any]], quick: bool) -> None:
             chunks = [pv[:cut], pv[cut:]]
             base = os.path.join(tmp, f"c{k}")
 
-            def run_cli(tag: str, jobs: list[Any], im: str | None) -> tuple[dict[str, Any], str]:
+            def run_cli(tag: str, jobs: list[Any], im: str | None, others: str = "none") -> tuple[dict[str, Any], str]:
                 d = os.path.join(base, tag)
                 os.makedirs(os.path.join(d, "in"))
                 os.makedirs(os.path.join(d, "out"))
@@ -80,15 +99,19 @@ def cli_part(ctx: Ctx, cases: list[dict[str, Any]], quick: bool) -> None:
                         json.dump(j, f)
                 argv = ["-o", os.path.join(d, "out"), "pv2puml", "-om", "-fp", os.path.join(d, "in"), "-jn", name]
                 if im:
-                    argv += ["-im", im]
+                    ims = {"none": [im], "after": [im, other_model], "before": [other_model, im]}[others]
+                    for x in ims:
+                        argv += ["-im", x]
                 w.send({"op": "cli", "argv": argv, "timeout": 120})
                 return w.recv(), os.path.join(d, "out", stem + "_model.json")
             r1, m1 = run_cli("one", pv, None)
             ra, ma = run_cli("a", chunks[0], None)
-            rb, mb = run_cli("b", chunks[1], ma if os.path.exists(ma) else None)
+            others = r.choice(["none", "after", "before"]) if os.path.exists(other_model) else "none"
+            rb, mb = run_cli("b", chunks[1], ma if os.path.exists(ma) else None, others)
             ctx.tick("cli_updates")
+            ctx.tick("cli_other_model_" + others)
             ctx.tick("cli_name_with_space" if " " in name else "cli_name_plain")
-            inp = {"definition": c["blk"], "jobs_pv": pv, "job_name": name, "cut": cut}
+            inp = {"definition": c["blk"], "jobs_pv": pv, "job_name": name, "cut": cut, "other_model": others}
             if any("error" in x or x.get("exit") for x in (r1, ra, rb)):
                 if not ("error" in r1 or r1.get("exit")):
                     ctx.violation(f"the command line update fails where the one-shot run succeeds (job name {name!r}): "
@@ -288,9 +311,14 @@ def replay(data: dict[str, Any]) -> int:
                     with open(os.path.join(d, "in", f"job{n}.json"), "w") as f:
                         json.dump(j, f)
                 argv = ["-o", os.path.join(d, "out"), "pv2puml", "-om", "-fp", os.path.join(d, "in"), "-jn", name]
-                w.send({"op": "cli", "argv": argv + (["-im", im] if im else []), "timeout": 120})
+                ims = [] if not im else {"none": [im], "after": [im, other_model], "before": [other_model, im]}[
+                    inp.get("other_model", "none")]
+                for x in ims:
+                    argv += ["-im", x]
+                w.send({"op": "cli", "argv": argv, "timeout": 120})
                 print(tag, w.recv().get("exit"))
                 return os.path.join(d, "out", stem + "_model.json")
+            other_model = make_other_model(w, tmp) if inp.get("other_model", "none") != "none" else ""
             m1 = run_cli("one", jobs, None)
             ma = run_cli("a", jobs[:cut], None)
             mb = run_cli("b", jobs[cut:], ma if os.path.exists(ma) else None)
